@@ -135,6 +135,8 @@ struct Zoo
 
 	// which load modes are applied to mapOnlyExist/mapUpdate (Clean when false: used for plain round trips)
 	bool useLoadModes = false;
+	// XML element names cannot be numbers: maps with integer keys are left out there
+	bool skipIntKeyMaps = false;
 
 	template <class A>
 	void Serialize(A& ar)
@@ -155,7 +157,7 @@ struct Zoo
 		ar << KeyValue("uset", uset);
 		ar << KeyValue("umset", umset);
 		ar << KeyValue("map", map);
-		ar << KeyValue("imap", imap);
+		if (!skipIntKeyMaps) { ar << KeyValue("imap", imap); }
 		ar << KeyValue("mmap", mmap);
 		ar << KeyValue("umap", umap);
 		ar << KeyValue("ummap", ummap);
